@@ -1135,6 +1135,17 @@ class C04(SearchCheck):
         lines.append(f"search\t1\t{asp}||{8 if self.tier == 'quick' else 10}|0|0")
         start = "rnbqkbnr/pppppppp/8/8/8/8/PPPPPPPP/RNBQKBNR w KQkq - 0 1"
         lines.append("search\t1\t" + ";".join([f"{start}||1|0|0"] * 260))
+        # scores entering the mate range at aspiration depths (>= 5), for and against the side to move,
+        # both colours: sparse endgames are cheap to search deep
+        def mirror(fen):
+            b, side, *_ = fen.split(" ")
+            return "/".join(r.swapcase() for r in reversed(b.split("/"))) + (" b" if side == "w" else " w") + " - - 0 1"
+        mates = ["8/8/8/8/8/2k5/7r/1K6 w - - 0 1", "8/8/8/8/8/3k4/7r/2K5 w - - 0 1", "8/8/8/8/3q4/2k5/8/K7 w - - 0 1",
+                 "8/8/8/8/8/2K5/7R/1k6 w - - 0 1", "8/8/8/4k3/8/8/3QK3/8 w - - 0 1", "8/8/8/8/8/5k2/7q/4K3 w - - 0 1",
+                 "5k2/8/8/8/8/8/5PPP/3R2K1 b - - 0 1", "8/8/1k6/8/8/2R5/3K4/8 w - - 0 1"]
+        d = 6 if self.tier == "quick" else 9
+        for f in mates:
+            lines.append(f"search\t1\t{f}||{d}|0|0;{mirror(f)}||{d}|0|0")
         with open(req_path) as f:
             body = f.read()
         with open(req_path, "w") as f:
